@@ -284,6 +284,7 @@ def run_shard(spec_, res):
                 import rv.api as api
                 N = _build.norm(c.snap if c.kind == "project" else snapshot.snap_synth(api.Synth(c.obj)), "before")
                 ch = refcodec.Choices(random.Random(i * 7 + spec_["seed"]))
+                ch.snam_overlong = i % 4 == 0
                 sources.append((f"foreign:{c.kind}", refcodec.encode(N, ch), dict(c.describe(), choices=ch.describe())))
             except Exception:
                 res.count("foreign_encoding_failed")
